@@ -256,7 +256,7 @@ fn truth_for(class: &str, p: &mut Parameters, r: &mut StdRng) -> [f64; 6] {
             // (half far below any resolution, half inside the 0.01 degree singularity band but well above the accuracy)
             "j5-tiny" => e[4] = 10f64.powf(if r.gen_bool(0.5) { r.gen_range(-12.5..-8.5) } else { r.gen_range(-5.0..-3.8) }) * if r.gen_bool(0.5) { 1.0 } else { -1.0 },
             "j5-pi" => e[4] = PI,
-            "stretched" => e[2] = -psi3(p),
+            "stretched" | "barely-out" => e[2] = -psi3(p),
             "on-j1-axis" | "near-j1-axis" => {
                 // signed distance of the wrist centre from the J1 axis (in the arm plane): 0, or anything between the
                 // J1 axis and the J2 axis and as far again on the other side (|x| < |a1|)
@@ -293,6 +293,9 @@ fn limits_for(class: &str, q: &Joints, w: f64, r: &mut StdRng) -> Option<(Joints
             "wrap" => { let (a, b) = wrapr(q[j]); if a > b { (a, b) } else { wide(q[j]) } }
             // windows of more than a full turn on some joints (+-270, +-350 degrees, or shifted), wide ones on the others
             "beyond-turn" => match r.gen_range(0..3) { 0 => (-4.7, 4.7), 1 => { let c = r.gen_range(-0.5..0.5); (c - 6.1, c + 6.1) } _ => wide(q[j]) },
+            // windows of +-4e-6 rad (2.3 AU) around the originating J1 and J2: far narrower than any resolution of the
+            // check, but limits all the same - answers on other branches are far outside
+            "sliver" => if j < 2 { (q[j] - 4.0e-6, q[j] + 4.0e-6) } else { wide(q[j]) },
             "some-equal" => match r.gen_range(0..3) { 0 => { let v = r.gen_range(-3.0..3.0); (v, v) } 1 => narrow(q[j]), _ => wide(q[j]) },
             _ => if j == (q[0].abs() * 1000.0) as usize % 6 { (q[j] + 0.5, q[j] + 0.8) } else { wide(q[j]) },
         };
@@ -393,14 +396,16 @@ pub fn instance_p(sc: &Value, p: Parameters, shared: Option<&Shared>, r: &mut St
     let five = five_entry || dof == 5;
     let mut p = p;
     let e = match truth {
-        Some(e) if !matches!(pose_class, "stretched" | "on-j1-axis" | "near-j1-axis") => {
+        Some(e) if !matches!(pose_class, "stretched" | "barely-out" | "on-j1-axis" | "near-j1-axis") => {
             let q = from_effective(&p, &e);
             if matches!(pose_class, "generic" | "unreachable" | "nan" | "inf") && !nonsingular(&margins(&p, &q)) { truth_for(pose_class, &mut p, r) } else { e }
         }
         _ => truth_for(pose_class, &mut p, r),
     };
     let mut q = from_effective(&p, &e);
-    if dof == 5 && !five_entry && entry == "inverse" { q[5] = 0.0; } // a 5-DOF robot's plain inverse answers with J6 = 0
+    // a 5-DOF robot's plain inverse answers with J6 = 0: every second pose is that of a configuration with J6 = 0, the
+    // others are rolled about the tool axis by any J6 (tool point and axis are what counts)
+    if dof == 5 && !five_entry && entry == "inverse" && r.gen_bool(0.5) { q[5] = 0.0; }
     let own_layers = stack_for(sc["stack"].as_str().unwrap(), r);
     let same_stack = shared.is_some() && r.gen_bool(0.5);
     let layers = if same_stack { shared.unwrap().layers.clone() } else { own_layers };
@@ -419,7 +424,7 @@ pub fn instance_p(sc: &Value, p: Parameters, shared: Option<&Shared>, r: &mut St
     }
     let own_want = want;
     let mut pose_ok = true;
-    let mut reach = match pose_class { "stretched" | "on-j1-axis" => "edge", _ => "yes" };
+    let mut reach = match pose_class { "stretched" | "on-j1-axis" | "barely-out" => "edge", _ => "yes" };
     match pose_class {
         "unreachable" => {
             let far = 3.0 * (p.a1.abs() + p.a2.abs() + p.b.abs() + p.c1.abs() + p.c2 + p.c3 + p.c4) + 2.0;
@@ -434,6 +439,20 @@ pub fn instance_p(sc: &Value, p: Parameters, shared: Option<&Shared>, r: &mut St
             }
             want = cur;
             reach = "no";
+        }
+        "barely-out" => {
+            // the fully stretched arm, and the pose moved 0.3 .. 1.5 um further out along the stretched arm (from the
+            // J2 axis to the wrist centre): just out of reach - nothing may come back that is further than 1 um away
+            let chain = oracle::chain(&p, &leaf_q);
+            let dir = oracle::sub(&chain[4].t, &chain[1].t);
+            let n = oracle::norm(&dir).max(1e-9);
+            let mut leaf = oracle::fk(&p, &leaf_q);
+            leaf.t = oracle::add(&leaf.t, &oracle::scale(r.gen_range(0.3e-6..1.5e-6) / n, &dir));
+            let mut cur = leaf;
+            for l in robot.layers.iter().rev() {
+                match l { LayerF::Tool(i) | LayerF::Frame(i) => cur = cur.mul(i), LayerF::Base(i) => cur = i.mul(&cur), _ => {} }
+            }
+            want = cur;
         }
         "nan" => { want.t[r.gen_range(0..3)] = f64::NAN; pose_ok = false; }
         "inf" => { want.t[r.gen_range(0..3)] = if r.gen_bool(0.5) { f64::INFINITY } else { f64::NEG_INFINITY }; pose_ok = false; }
@@ -531,7 +550,7 @@ pub fn instance_p(sc: &Value, p: Parameters, shared: Option<&Shared>, r: &mut St
         let prev_free = if centered { let mut c = centres(&robot); if five_entry || dof == 5 { c[5] = 0.0; } c } else { prev };
         call(robot.free.as_ref(), entry, &pose, &prev_free, j6).unwrap_or_default().iter().map(au6).collect()
     } else { vec![] };
-    let known = pose_ok && pose_class != "unreachable";
+    let known = pose_ok && pose_class != "unreachable" && pose_class != "barely-out";
     let resolve: Vec<usize> = if entry == "inverse" && dof == 6 && robot.limits.is_none() && known && nonsingular(&m) {
         ans.iter().map(|a| robot.kin.inverse(&robot.ofk(a).to_na()).len()).collect()
     } else { vec![] };
